@@ -134,6 +134,8 @@ class Gen:
             lo, hi = 25, 60
         # (hash, conflict) pairs; integer keys have conflict hash 0 (z.KeyToHash): every case has some of those
         keys = [(mix(h), 0 if h % 3 == 0 else 10 * h) for h in range(1, nkeys + 1)]
+        # Metrics spreads each counter over 25 stripes by hash % 25: mix(28) is in the last one (24), none of mix(1..20) is
+        keys[-1] = (mix(28), 280)
         if profile == "collide":
             keys = [(mix(1), 10), (mix(1), 11), (mix(2), 20), (mix(2), 0), (mix(3), 30), (mix(3), 31), (mix(4), 40)]
         hashes = sorted({h for h, _ in keys})
